@@ -11,8 +11,8 @@
 EXTENDS Snapshotting, Json, Integers
 
 Trace == ndJsonDeserialize("trace.ndjson")
-VARIABLES l, inflight, bad
-tvars == <<vars, l, inflight, bad>>
+VARIABLES l, inflight, conf, bad
+tvars == <<vars, l, inflight, conf, bad>>
 NoOp == [on |-> FALSE]
 Ev == Trace[l]
 Is(e) == l <= Len(Trace) /\ Trace[l].ev = e
@@ -32,13 +32,13 @@ SumV(lg, S) == IF S = {} THEN 0 ELSE LET i == CHOOSE x \in S : TRUE IN lg[i].v +
 Matches(e, lg) == /\ \A p \in Page : e.pages[PageIdx(p)] = ExpectedL(lg, Len(lg))[p]
                   /\ e.rows = Cardinality(RowsIn(lg)) /\ e.sum = SumV(lg, RowsIn(lg))
 
-TInit == Init /\ l = 1 /\ inflight = NoOp /\ bad = {} /\ TLCSet(1, 0) /\ TLCSet(2, {})
+TInit == Init /\ l = 1 /\ inflight = NoOp /\ conf = <<"n1:true">> /\ bad = {} /\ TLCSet(1, 0) /\ TLCSet(2, {})
 
-TReset == /\ Is("reset") /\ Step /\ log' = <<>> /\ inflight' = NoOp /\ UNCHANGED bad /\ Others
+TReset == /\ Is("reset") /\ Step /\ log' = <<>> /\ inflight' = NoOp /\ conf' = <<"n1:true">> /\ UNCHANGED bad /\ Others
 Skip == /\ l <= Len(Trace) /\ Trace[l].ev \in {"snap", "reap", "closed", "killed", "end", "note"} /\ Step
-        /\ UNCHANGED <<log, inflight, bad>> /\ Others
+        /\ UNCHANGED <<log, inflight, conf, bad>> /\ Others
 
-Inv == /\ Is("inv") /\ Step /\ inflight' = [on |-> TRUE, op |-> OpOf(Ev), k |-> Ev.k] /\ UNCHANGED <<log, bad>> /\ Others
+Inv == /\ Is("inv") /\ Step /\ inflight' = [on |-> TRUE, op |-> OpOf(Ev), k |-> Ev.k] /\ UNCHANGED <<log, conf, bad>> /\ Others
 
 (* an acknowledged operation is part of the history; a refused load of invalid data is not *)
 Ack == /\ Is("ack") /\ Step
@@ -46,16 +46,24 @@ Ack == /\ Is("ack") /\ Step
           THEN /\ bad' = Flag(bad, ~Ev.ok, "invalid-load-accepted") /\ log' = log /\ inflight' = NoOp
           ELSE IF Ev.ok THEN /\ log' = Append(log, inflight.op) /\ inflight' = NoOp /\ UNCHANGED bad
                ELSE UNCHANGED <<log, inflight, bad>>                  \* outcome unknown: stays in flight until observed
-       /\ Others
+       /\ UNCHANGED conf /\ Others
 
 (* the live database equals the history; an operation of unknown outcome is resolved by what is seen *)
 Observe(name) ==
   IF Matches(Ev, log) THEN /\ log' = log /\ inflight' = NoOp /\ UNCHANGED bad
   ELSE IF inflight.on /\ Matches(Ev, Append(log, inflight.op)) THEN /\ log' = Append(log, inflight.op) /\ inflight' = NoOp /\ UNCHANGED bad
   ELSE /\ bad' = Flag(bad, FALSE, name) /\ UNCHANGED <<log, inflight>>
-State == /\ Is("state") /\ Step /\ Observe("live-database-is-not-the-acknowledged-history") /\ Others
-Open1 == /\ Is("open") /\ Step /\ Observe("database-after-restart-is-not-the-acknowledged-history") /\ Others
-OpenFail == /\ Is("openfail") /\ Step /\ bad' = Flag(bad, FALSE, "node-does-not-start") /\ UNCHANGED <<log, inflight>> /\ Others
+State == /\ Is("state") /\ Step /\ Observe("live-database-is-not-the-acknowledged-history") /\ UNCHANGED conf /\ Others
+(* C33: a node recovered from a peers file starts with exactly that configuration, and keeps it *)
+Open1 == /\ Is("open") /\ Step /\ Others
+         /\ conf' = IF Ev.recover THEN Ev.peers ELSE conf
+         /\ IF Matches(Ev, log) THEN /\ log' = log /\ inflight' = NoOp
+                                      /\ bad' = Flag(bad, ~("nodes" \in DOMAIN Ev) \/ Ev.nodes = conf', "configuration-is-not-the-peers-file")
+            ELSE IF inflight.on /\ Matches(Ev, Append(log, inflight.op))
+                 THEN /\ log' = Append(log, inflight.op) /\ inflight' = NoOp
+                      /\ bad' = Flag(bad, ~("nodes" \in DOMAIN Ev) \/ Ev.nodes = conf', "configuration-is-not-the-peers-file")
+            ELSE /\ bad' = Flag(bad, FALSE, "database-after-restart-is-not-the-acknowledged-history") /\ UNCHANGED <<log, inflight>>
+OpenFail == /\ Is("openfail") /\ Step /\ bad' = Flag(bad, FALSE, "node-does-not-start") /\ UNCHANGED <<log, inflight, conf>> /\ Others
 
 TNext == TReset \/ Skip \/ Inv \/ Ack \/ State \/ Open1 \/ OpenFail
 TSpec == TInit /\ [][TNext]_tvars
